@@ -211,7 +211,7 @@ def lean_obligations(prop: str, extra_modules: list[str] | None = None, recheck:
             ra = _run(["lake", "env", "lean", str(audit)], cwd=LEAN)
             if ra.returncode != 0:
                 raise ToolFailure("axiom audit failed: " + (ra.stdout + ra.stderr)[-2000:])
-            for m in re.finditer(r"'([^']+)' (does not depend on any axioms|depends on axioms: \[([^\]]*)\])", ra.stdout):
+            for m in re.finditer(r"^'(.+?)' (does not depend on any axioms|depends on axioms: \[([^\]]*)\])", ra.stdout, re.M):
                 axioms[m.group(1)] = [a.strip() for a in (m.group(3) or "").replace("\n", " ").split(",") if a.strip()]
             for n in proved:
                 if n not in axioms:
